@@ -140,6 +140,25 @@ func (w *World) LoopTerminates(fn *ssa.Function, hb *ssa.BasicBlock) (bool, stri
 					return true, fmt.Sprintf("%s strictly increases on every back edge and is bounded by the loop-invariant %s there", name, bn)
 				}
 			}
+			// a constant bound (the loop test compares with a value of small range,
+			// e.g. a count byte returned by an accessor)
+			constBound := int64(0)
+			for _, cb := range []int64{1 << 8, 1 << 16, 1 << 32} {
+				okAll := true
+				for _, i := range backs {
+					if !ctxs[i].Entails(lin.LE(ctxs[i].phiTerm(p), lin.K(cb))) {
+						okAll = false
+						break
+					}
+				}
+				if okAll {
+					constBound = cb
+					break
+				}
+			}
+			if constBound != 0 {
+				return true, fmt.Sprintf("%s strictly increases on every back edge and is bounded by the constant %d there", name, constBound)
+			}
 			tried = append(tried, name+": increases but no loop-invariant upper bound found")
 			continue
 		}
